@@ -149,20 +149,19 @@ class SelfConsistent(SubCheck):
         return _case()
 
     def nontermination_outcome(self, case, e):
-        """root-cause signature of a monitor hit. Recorded finding: the SP2 purification loop (no iteration cap) never
-        terminates for some batches that contain an anion. I could not derive a sufficient condition: probes of 13
-        configurations (single OH-, NH2-, CH3-, HS-, FHF-, CN- with and without padding; CH4+CH3-; neutrals and cations
-        padded) all terminate although NH2-/CH3- have a positive HOMO and empty hydrogen p slots, while [ClF, OH-] padded
-        (AM1) and [NH2-, OCS] unpadded (PM3) hang. The predicate therefore states only what ALL observed hangs share --
-        call site SP2, a row with negative charge -- so a hang without an anion, or in another loop, is still a violation."""
+        """root-cause signature of a monitor hit. Recorded finding, scoped by CALL SITE: the SP2 purification loop has no
+        iteration cap, so every input for which purification does not converge hangs the call. The first version of the
+        predicate also required a row with negative charge (all hangs seen until then had one); the check itself then found
+        a hang for two NEUTRAL molecules (AM1 [CH3F, PF3] padded, restart from a scaled density), so the predicate was
+        widened to the root cause = the loop. A monitor hit in any other loop is reported under its own bucket."""
         rows = _rows(case)
         width = max(len(r[0]) for r in rows) + case.get("padw", 0)
         padded = any(len(r[0]) < width for r in rows)
         anion = any(r[2] < 0 for r in rows)
-        labels = ["sp2:True", "padded:%s" % padded, "anion:%s" % anion, "rows:%d" % len(rows)]
-        if e.loop == "SP2" and anion:
-            return Outcome.fail("sp2_nontermination_batch_with_anion", f"{e} (rows {[M.ALL[m['tpl']]['charge'] for m in [case['mol']] + list(case.get('mates', []))]} charges, padded={padded})", labels, True)
-        return Outcome.fail(f"nontermination:{e.loop}:no_anion", str(e), labels, True)
+        labels = ["sp2:True", "padded:%s" % padded, "anion:%s" % anion, "rows:%d" % len(rows), "p0:" + case["p0"]]
+        if e.loop == "SP2":
+            return Outcome.fail("sp2_loop_without_iteration_cap", f"{e} (charges {[r[2] for r in rows]}, padded={padded}, start={case['p0']})", labels, True)
+        return Outcome.fail(f"nontermination:{e.loop}", str(e), labels, True)
 
     def oracle(self, case):
         from .. import refnddo as R
